@@ -6,13 +6,15 @@
       characters;
    2. facts about the shipped tables (from the C14 theorems): every lookup succeeds and the
       Line_Ending property is exactly {LF, VT, FF, CR, NEL, LS, PS};
-   3. the two loops of position_at, started anywhere, compute [spec_runes] of the characters they scan
-      as long as no CR LF pair is involved; [spec_runes] composes over concatenation under the same
-      condition;
-   4. an invariant (every cache entry and the origin hold the specified position) carried through
-      arbitrary histories;
+   3. the specification looks ahead (a CR followed by LF does not count), the code looks behind (an LF
+      preceded by CR does not count): the two counts agree, the specified position composes over
+      concatenation given the last character of the first part, and the two loops of position_at,
+      started at any boundary, compute exactly that continuation;
+   4. an invariant (every cache entry and the origin hold the specified position in all the text, the
+      look-behind byte / origin_follows_cr tells whether the text before the starting point ends in CR)
+      carried through arbitrary histories;
    5. the cache lemmas (sortedness, repeated query);
-   6. the refutations, by evaluation on the shipped tables. *)
+   6. special cases and a worked example, by evaluation on the shipped tables. *)
 From Coq Require Import NArith ZArith List Bool Lia.
 From Lug Require Import Gen.UcdTables Utf8.Utf8Model Utf8.Utf8Spec Utf8.Utf8Stmts Utf8.Utf8Proofs
   Ucd.Rle Ucd.Lookup Ucd.UcdSpec Ucd.UcdProofs Pos.PosModel Pos.PosSpec.
@@ -139,35 +141,75 @@ Qed.
 (* 3a. The specification over concatenations                                                         *)
 (* ------------------------------------------------------------------------------------------------ *)
 
-Fixpoint simple_count (rs : list N) : N :=
-  match rs with [] => 0 | r :: rest => (if is_line_ending r then 1 else 0) + simple_count rest end.
+(* The specification looks ahead (a CR does not count when an LF follows); a scan looks behind (an LF
+   does not count when a CR precedes).  [count_from cr rs] is the look-behind count of the line
+   endings of [rs] when [cr] tells whether the character before [rs] is a CR. *)
+Fixpoint count_from (cr : bool) (rs : list N) : N :=
+  match rs with
+  | [] => 0
+  | r :: rest => (if is_line_ending r && negb (cr && (r =? 10)) then 1 else 0) + count_from (r =? 13) rest
+  end.
 
-Lemma count_no_crlf rs : no_crlf rs = true -> count_line_endings rs = simple_count rs.
+Definition last_is_cr (rs : list N) : bool := last rs 0 =? 13.
+
+(* the position after the characters [rs] in a text that continues from position [o], where [cr] tells
+   whether the character before [rs] is a CR *)
+Definition spec_from (t : ucd_table) (tw ta : N) (cr : bool) (o : pos) (rs : list N) : option pos :=
+  match columns t tw ta (current_line rs) (if has_line_ending rs then 1 else p_col o) with
+  | Some c => Some (mkpos (p_line o + count_from cr rs) c)
+  | None => None
+  end.
+
+Lemma count_unfold r rest : count_line_endings (r :: rest) =
+  (if is_line_ending r && negb ((r =? 13) && head_is_lf rest) then 1 else 0) + count_line_endings rest.
+Proof. reflexivity. Qed.
+
+Lemma count_from_unfold cr r rest : count_from cr (r :: rest) =
+  (if is_line_ending r && negb (cr && (r =? 10)) then 1 else 0) + count_from (r =? 13) rest.
+Proof. reflexivity. Qed.
+
+(* looking behind and looking ahead count the same *)
+Lemma count_from_spec : forall rs cr,
+  count_from cr rs + (if cr && head_is_lf rs then 1 else 0) = count_line_endings rs.
 Proof.
-  induction rs as [|r rest IH]; [reflexivity|]. cbn [no_crlf count_line_endings simple_count].
-  intros H. apply andb_true_iff in H. destruct H as [H1 H2]. rewrite (IH H2), H1, andb_true_r. reflexivity.
+  induction rs as [|r rest IH]; intros cr.
+  - cbn [count_from head_is_lf count_line_endings]. rewrite andb_false_r. reflexivity.
+  - rewrite count_unfold, count_from_unfold, <- (IH (r =? 13)). cbn [head_is_lf].
+    destruct (N.eqb_spec r 10) as [E10|E10]; [subst r; destruct cr, (head_is_lf rest); cbv [is_line_ending]; cbn [N.eqb Pos.eqb orb andb negb]; lia|].
+    destruct (N.eqb_spec r 13) as [E13|E13]; [subst r; destruct cr, (head_is_lf rest); cbv [is_line_ending]; cbn [N.eqb Pos.eqb orb andb negb]; lia|].
+    rewrite andb_false_r. cbn [andb negb]. rewrite andb_true_r. lia.
 Qed.
 
-Lemma simple_count_app a b : simple_count (a ++ b) = simple_count a + simple_count b.
-Proof. induction a as [|r a IH]; [reflexivity|]. cbn [app simple_count]. rewrite IH. lia. Qed.
+Lemma count_from_false rs : count_from false rs = count_line_endings rs.
+Proof. rewrite <- (count_from_spec rs false). cbn [andb]. lia. Qed.
 
-Lemma head_is_lf_app a b : a <> [] -> head_is_lf (a ++ b) = head_is_lf a.
-Proof. destruct a; [congruence|reflexivity]. Qed.
-
-Lemma no_crlf_app a b : no_crlf (a ++ b) = true -> no_crlf a = true /\ no_crlf b = true.
+Lemma count_cons r rest :
+  count_line_endings (r :: rest) = (if is_line_ending r then 1 else 0) + count_from (r =? 13) rest.
 Proof.
-  induction a as [|r a IH]; [intros H; split; [reflexivity|exact H]|].
-  cbn [app no_crlf]. intros H. apply andb_true_iff in H. destruct H as [H1 H2].
-  destruct (IH H2) as [Ha Hb]. split; [|exact Hb]. rewrite Ha, andb_true_r.
-  destruct a as [|x a]; [|exact H1].
-  cbn [head_is_lf]. rewrite andb_false_r. reflexivity.
+  rewrite count_unfold, <- (count_from_spec rest (r =? 13)).
+  destruct (N.eqb_spec r 13) as [E|E]; [subst r; destruct (head_is_lf rest); cbv [is_line_ending]; cbn [N.eqb Pos.eqb orb andb negb]; lia|].
+  cbn [andb negb]. rewrite andb_true_r. lia.
 Qed.
 
-Lemma no_crlf_firstn j rs : no_crlf rs = true -> no_crlf (firstn j rs) = true.
-Proof. intros H. rewrite <- (firstn_skipn j rs) in H. apply no_crlf_app in H. apply H. Qed.
+Lemma last_is_cr_cons r x l : last_is_cr (r :: x :: l) = last_is_cr (x :: l).
+Proof. reflexivity. Qed.
 
-Lemma no_crlf_skipn j rs : no_crlf rs = true -> no_crlf (skipn j rs) = true.
-Proof. intros H. rewrite <- (firstn_skipn j rs) in H. apply no_crlf_app in H. apply H. Qed.
+(* the line endings of a ++ b: those of a, then those of b counted looking behind *)
+Lemma count_app : forall a b,
+  count_line_endings (a ++ b) = count_line_endings a + count_from (last_is_cr a) b.
+Proof.
+  induction a as [|r a IH]; intros b.
+  - cbn [app count_line_endings]. unfold last_is_cr. cbn [last]. change (0 =? 13) with false.
+    rewrite count_from_false. lia.
+  - destruct a as [|x a].
+    + cbn [app]. rewrite count_cons. unfold last_is_cr. cbn [last count_line_endings head_is_lf].
+      rewrite andb_false_r. cbn [negb]. rewrite andb_true_r. lia.
+    + rewrite last_is_cr_cons. change ((r :: x :: a) ++ b) with (r :: (x :: a) ++ b).
+      rewrite (count_unfold r ((x :: a) ++ b)), (count_unfold r (x :: a)), (IH b). cbn [app head_is_lf]. lia.
+Qed.
+
+Lemma spec_from_false t tw ta o rs : spec_from t tw ta false o rs = spec_runes t tw ta o rs.
+Proof. unfold spec_from, spec_runes. rewrite count_from_false. reflexivity. Qed.
 
 Lemma has_le_app a b : has_line_ending (a ++ b) = has_line_ending a || has_line_ending b.
 Proof. unfold has_line_ending. apply existsb_app. Qed.
@@ -221,14 +263,12 @@ Qed.
 Lemma spec_runes_nil t tw ta o : spec_runes t tw ta o [] = Some o.
 Proof. unfold spec_runes. cbn. destruct o as [l c]. cbn. rewrite N.add_0_r. reflexivity. Qed.
 
-(* positions compose: the position after a ++ b is the position after b in a text that starts where
-   a ends -- provided no CR LF pair straddles or lies inside *)
-Lemma spec_runes_app t tw ta o a b p : no_crlf (a ++ b) = true ->
-  spec_runes t tw ta o a = Some p -> spec_runes t tw ta o (a ++ b) = spec_runes t tw ta p b.
+(* positions compose: the position after a ++ b is the position after b in a text that continues
+   where a ends, b's line endings being counted with a look at the last character of a *)
+Lemma spec_runes_app t tw ta o a b p :
+  spec_runes t tw ta o a = Some p -> spec_runes t tw ta o (a ++ b) = spec_from t tw ta (last_is_cr a) p b.
 Proof.
-  intros Hn Ha. destruct (no_crlf_app a b Hn) as [Hna Hnb].
-  unfold spec_runes in *. rewrite (count_no_crlf _ Hn), simple_count_app, <- (count_no_crlf _ Hna), <- (count_no_crlf _ Hnb).
-  rewrite has_le_app, current_line_app.
+  intros Ha. unfold spec_runes, spec_from in *. rewrite count_app, has_le_app, current_line_app.
   destruct (columns t tw ta (current_line a) (if has_line_ending a then 1 else p_col o)) as [ca|] eqn:Ea; [|discriminate Ha].
   inversion Ha; subst p; clear Ha. cbn [p_line p_col].
   destruct (has_line_ending b) eqn:Eb.
@@ -247,8 +287,9 @@ Lemma scan_lines_step t f cur prev p first : cur <> [] ->
    let next := skipn n cur in
    match query t rune with
    | None => None
-   | Some r => if has (rec_props r) ptype_Line_Ending && negb ((prev =? 13) && (rune =? 10))
-               then scan_lines t f next rune (mkpos (p_line p + 1) 1) next
+   | Some r => if has (rec_props r) ptype_Line_Ending
+               then scan_lines t f next rune
+                      (mkpos (if negb ((prev =? 13) && (rune =? 10)) then p_line p + 1 else p_line p) 1) next
                else scan_lines t f next rune p first
    end).
 Proof. destruct cur; [congruence|reflexivity]. Qed.
@@ -267,17 +308,16 @@ Proof. destruct cur; [congruence|reflexivity]. Qed.
 Lemma has_le_cons r rest : has_line_ending (r :: rest) = is_line_ending r || has_line_ending rest.
 Proof. reflexivity. Qed.
 
-(* first loop: as long as the scan does not begin between a CR and its LF and meets no CR LF pair, it
-   counts the line endings and leaves `first` at the start of the last line *)
+(* first loop: counts the line endings looking behind ([prev] = the character before the scan) and
+   leaves `first` at the start of the last line *)
 Lemma scan_lines_runes t : table_ok t ->
   forall rs fuel prev p first, scalars rs -> (length (encs rs) <= fuel)%nat ->
-    (prev =? 13) && head_is_lf rs = false -> no_crlf rs = true ->
     scan_lines t fuel (encs rs) prev p first =
-    Some (mkpos (p_line p + count_line_endings rs) (if has_line_ending rs then 1 else p_col p),
+    Some (mkpos (p_line p + count_from (prev =? 13) rs) (if has_line_ending rs then 1 else p_col p),
           if has_line_ending rs then encs (current_line rs) else first).
 Proof.
-  intros Hok. induction rs as [|r rest IH]; intros fuel prev p first Hs Hf Hprev Hn.
-  - cbn [encs flat_map]. destruct fuel; cbn [scan_lines has_line_ending existsb count_line_endings];
+  intros Hok. induction rs as [|r rest IH]; intros fuel prev p first Hs Hf.
+  - cbn [encs flat_map]. destruct fuel; cbn [scan_lines has_line_ending existsb count_from];
       destruct p as [l c]; cbn [p_line p_col]; rewrite N.add_0_r; reflexivity.
   - inversion Hs as [|? ? Hr Hrest]; subst. rewrite encs_cons in *.
     pose proof (enc_length_pos r Hr) as L. rewrite app_length in Hf.
@@ -286,14 +326,13 @@ Proof.
     rewrite (dec_enc r _ Hr (encs_bytes_ok rest Hrest)). cbv beta iota zeta.
     rewrite skipn_app_exact.
     destruct (Hok r) as [x [Hq Hle]]. rewrite Hq, Hle.
-    cbn [no_crlf] in Hn. apply andb_true_iff in Hn. destruct Hn as [Hn1 Hn2]. apply negb_true_iff in Hn1.
-    cbn [head_is_lf] in Hprev. rewrite Hprev. cbn [negb]. rewrite andb_true_r.
-    rewrite has_le_cons. cbn [count_line_endings current_line]. rewrite Hn1. cbn [negb]. rewrite andb_true_r.
+    rewrite has_le_cons, count_from_unfold. cbn [current_line].
     assert (Hf' : (length (encs rest) <= f)%nat) by lia.
     destruct (is_line_ending r) eqn:Er.
-    + rewrite (IH f r (mkpos (p_line p + 1) 1) (encs rest) Hrest Hf' Hn1 Hn2). cbn [p_line p_col orb].
-      rewrite N.add_assoc. destruct (has_line_ending rest); reflexivity.
-    + rewrite (IH f r p first Hrest Hf' Hn1 Hn2). cbn [orb]. rewrite N.add_0_l.
+    + rewrite (IH f r _ (encs rest) Hrest Hf'). cbn [p_line p_col orb andb].
+      destruct ((prev =? 13) && (r =? 10)); cbn [negb]; rewrite ?N.add_assoc, ?N.add_0_r;
+        destruct (has_line_ending rest); reflexivity.
+    + rewrite (IH f r p first Hrest Hf'). cbn [orb andb]. rewrite N.add_0_l.
       destruct (has_line_ending rest); reflexivity.
 Qed.
 
@@ -321,24 +360,63 @@ Proof.
 Qed.
 
 (* the two loops together, started at any boundary with any position p: the specified position of the
-   characters scanned, in a text that starts at p *)
+   characters scanned, in a text that continues from p; [cr] = what the look-behind byte says *)
 Lemma compute_runes t s tw ta : table_ok t -> ps_tabw s = tw -> ps_taba s = ta ->
-  forall pre mid post p, ps_match s = encs pre ++ encs mid ++ post -> scalars mid -> no_crlf mid = true ->
+  forall pre mid post p (cr : bool), ps_match s = encs pre ++ encs mid ++ post -> scalars mid ->
+    initial_prevrune s (N.of_nat (length (encs pre))) = (if cr then 13 else 0) ->
     compute_position t s (N.of_nat (length (encs pre)), p) (N.of_nat (length (encs pre) + length (encs mid)))
-    = spec_runes t tw ta p mid.
+    = spec_from t tw ta cr p mid.
 Proof.
-  intros Hok Htw Hta pre mid post p Hm Hs Hn. unfold compute_position. rewrite Hm, Htw, Hta.
+  intros Hok Htw Hta pre mid post p cr Hm Hs Hprev. unfold compute_position. rewrite Hprev, Hm, Htw, Hta.
   rewrite Nat2N.id, skipn_app_exact.
   replace (N.to_nat (N.of_nat (length (encs pre) + length (encs mid)) - N.of_nat (length (encs pre)))) with (length (encs mid)) by lia.
   rewrite firstn_app_exact.
-  rewrite (scan_lines_runes t Hok mid (length (encs mid)) 0 p (encs mid) Hs (le_n _) eq_refl Hn).
+  rewrite (scan_lines_runes t Hok mid (length (encs mid)) _ p (encs mid) Hs (le_n _)).
+  assert (Ecr : ((if cr then 13 else 0) =? 13) = cr) by (destruct cr; reflexivity). rewrite Ecr.
   assert (E : (if has_line_ending mid then encs (current_line mid) else encs mid) = encs (current_line mid)).
   { destruct (has_line_ending mid) eqn:Eh; [reflexivity|]. rewrite (current_line_none mid Eh). reflexivity. }
   rewrite E. cbn [p_line p_col].
   assert (Hsc : scalars (current_line mid)).
   { destruct (current_line_suffix mid) as [pre' Hp]. rewrite Hp in Hs. apply scalars_app in Hs. apply Hs. }
   rewrite (scan_cols_runes t tw ta (current_line mid) _ _ Hsc (le_n _)).
-  unfold spec_runes. reflexivity.
+  unfold spec_from. reflexivity.
+Qed.
+
+(* the look-behind byte: the last byte of a non-empty UTF-8 text is CR exactly when its last character is *)
+Lemma enc_last_cr r : is_scalar r = true -> (last (enc r) 0 =? 13) = (r =? 13).
+Proof.
+  intros Hs. unfold enc. pose proof Hs as Hs'. unfold is_scalar in Hs'.
+  destruct (N.lt_ge_cases r 128) as [H1|H1]; [rewrite (enc1 r H1); reflexivity|].
+  assert (Hne : (r =? 13) = false) by (apply N.eqb_neq; lia). rewrite Hne.
+  destruct (N.lt_ge_cases r 2048) as [H2|H2]; [rewrite (enc2 r (conj H1 H2)); cbn [fst last]; apply N.eqb_neq; lia|].
+  destruct (N.lt_ge_cases r 65536) as [H3|H3]; [rewrite (enc3 r (conj H2 H3) Hs); cbn [fst last]; apply N.eqb_neq; lia|].
+  assert (H4 : r < 1114112) by lia.
+  rewrite (enc4 r (conj H3 H4)). cbn [fst last]. apply N.eqb_neq. lia.
+Qed.
+
+Lemma last_app_nonnil {A} (a b : list A) d : b <> [] -> last (a ++ b) d = last b d.
+Proof.
+  intros Hb. induction a as [|x a IH]; [reflexivity|]. cbn [app]. rewrite <- IH.
+  destruct (a ++ b) eqn:E; [|reflexivity]. apply app_eq_nil in E. destruct E as [_ E]. congruence.
+Qed.
+
+Lemma last_nth {A} (l : list A) d : last l d = nth (length l - 1) l d.
+Proof.
+  destruct l as [|x l]; [reflexivity|]. assert (Hne : x :: l <> []) by discriminate.
+  destruct (exists_last Hne) as [l' [y E]]. rewrite E, last_last, app_length. cbn [length].
+  rewrite app_nth2 by lia. replace (length l' + 1 - 1 - length l')%nat with O by lia. reflexivity.
+Qed.
+
+Lemma enc_nonnil r : is_scalar r = true -> enc r <> [].
+Proof. intros H E. pose proof (enc_length_pos r H) as L. rewrite E in L. cbn in L. lia. Qed.
+
+Lemma encs_last_cr pre l : scalars l -> l <> [] -> (last (encs l) 0 =? 13) = last_is_cr (pre ++ l).
+Proof.
+  intros Hs Hne. destruct (exists_last Hne) as [l' [x E]]. subst l.
+  apply scalars_app in Hs. destruct Hs as [_ Hx]. inversion Hx as [|? ? Hx' _]; subst.
+  rewrite encs_app. cbn [encs flat_map]. rewrite app_nil_r.
+  rewrite (last_app_nonnil _ _ 0 (enc_nonnil x Hx')), (enc_last_cr x Hx').
+  unfold last_is_cr. rewrite app_assoc, last_last. reflexivity.
 Qed.
 
 (* ------------------------------------------------------------------------------------------------ *)
@@ -425,19 +503,43 @@ Definition entry_ok (t : ucd_table) (tw ta : N) (done seg : list N) (e : N * pos
   exists j, (j <= length seg)%nat /\ fst e = boff seg j /\
             spec_runes t tw ta (mkpos 1 1) (done ++ firstn j seg) = Some (snd e).
 
-(* the state of an environment that has released the characters [done] and holds the segment [seg] *)
+(* the state of an environment that has released the characters [done] and holds the segment [seg]:
+   the origin and every cache entry hold the specified position of their offset in ALL the text (so a
+   position just after a CR already carries the line of that CR), and origin_follows_cr tells whether
+   the released text ends in CR *)
 Definition Inv (t : ucd_table) (tw ta : N) (done seg : list N) (flag : bool) (s : pstate) : Prop :=
   ps_match s = encs seg /\ ps_tabw s = tw /\ ps_taba s = ta /\ ps_reset s = flag /\
   spec_runes t tw ta (mkpos 1 1) done = Some (ps_origin s) /\
+  ps_ofcr s = last_is_cr done /\
   Forall (entry_ok t tw ta done seg) (ps_cache s).
 
+Lemma boff_0 seg : boff seg 0 = 0.
+Proof. reflexivity. Qed.
+
+(* the look-behind of a scan that starts at the boundary after j0 characters of the segment *)
+Lemma initial_prevrune_ok done seg s j0 : ps_match s = encs seg -> ps_ofcr s = last_is_cr done ->
+  scalars seg -> (j0 <= length seg)%nat ->
+  initial_prevrune s (boff seg j0) = if last_is_cr (done ++ firstn j0 seg) then 13 else 0.
+Proof.
+  intros Hm Hcr Hs Hj. unfold initial_prevrune. destruct j0 as [|k].
+  - rewrite boff_0. cbn [firstn]. rewrite app_nil_r, Hcr. reflexivity.
+  - assert (Hpos : boff seg 0 < boff seg (S k)) by (apply boff_lt; [exact Hs|lia]). rewrite boff_0 in Hpos.
+    assert (E0 : (0 <? boff seg (S k)) = true) by (apply N.ltb_lt; exact Hpos). rewrite E0.
+    assert (Hne : firstn (S k) seg <> []).
+    { destruct seg; [cbn in Hj; lia|discriminate]. }
+    rewrite <- (encs_last_cr done (firstn (S k) seg) (scalars_firstn _ _ Hs) Hne).
+    assert (Eenc : encs seg = encs (firstn (S k) seg) ++ encs (skipn (S k) seg))
+      by (rewrite <- encs_app, firstn_skipn; reflexivity).
+    rewrite Hm, Eenc. unfold boff in *. rewrite Nat2N.id. rewrite app_nth1 by lia. rewrite <- last_nth. reflexivity.
+Qed.
+
 Lemma query_ok t tw ta done seg flag s j : table_ok t -> Inv t tw ta done seg flag s ->
-  scalars seg -> no_crlf (done ++ seg) = true -> (j <= length seg)%nat ->
+  scalars seg -> (j <= length seg)%nat ->
   exists p s', position_at t s (boff seg j) = Some (p, s') /\
                spec_runes t tw ta (mkpos 1 1) (done ++ firstn j seg) = Some p /\
                Inv t tw ta done seg flag s'.
 Proof.
-  intros Hok (Hm & Htw & Hta & Hfl & Ho & Hc) Hs Hn Hj.
+  intros Hok (Hm & Htw & Hta & Hfl & Ho & Hcr & Hc) Hs Hj.
   unfold position_at. destruct (lower_bound (ps_cache s) (boff seg j)) as [b a] eqn:El.
   destruct (lb_spec _ _ _ _ El) as (Hcat & Hb & _).
   pose proof Hc as Hc'. rewrite Hcat in Hc'. apply Forall_app in Hc'. destruct Hc' as [Hcb Hca].
@@ -470,13 +572,13 @@ Proof.
     { rewrite Hm. rewrite Eseg at 1. rewrite !encs_app. reflexivity. }
     assert (Eidx : boff seg j = N.of_nat (length (encs (firstn j0 seg)) + length (encs mid))).
     { unfold boff. rewrite Efj, encs_app, app_length. reflexivity. }
-    assert (Hn' : no_crlf ((done ++ firstn j0 seg) ++ mid) = true).
-    { rewrite <- app_assoc, <- Efj. rewrite <- (firstn_skipn j seg), app_assoc in Hn. apply no_crlf_app in Hn. apply Hn. }
     assert (Hsm : scalars mid) by (apply scalars_firstn, scalars_skipn; exact Hs).
+    assert (Hprev : initial_prevrune s (N.of_nat (length (encs (firstn j0 seg)))) =
+                    if last_is_cr (done ++ firstn j0 seg) then 13 else 0).
+    { apply (initial_prevrune_ok done seg s j0 Hm Hcr Hs). lia. }
     unfold boff at 1. rewrite Eidx.
-    rewrite (compute_runes t s tw ta Hok Htw Hta (firstn j0 seg) mid (encs (skipn j seg)) p0 Ematch Hsm
-               (proj2 (no_crlf_app _ _ Hn'))).
-    rewrite <- (spec_runes_app t tw ta (mkpos 1 1) (done ++ firstn j0 seg) mid p0 Hn' Hsp0).
+    rewrite (compute_runes t s tw ta Hok Htw Hta (firstn j0 seg) mid (encs (skipn j seg)) p0 _ Ematch Hsm Hprev).
+    rewrite <- (spec_runes_app t tw ta (mkpos 1 1) (done ++ firstn j0 seg) mid p0 Hsp0).
     rewrite <- app_assoc, <- Efj.
     destruct (spec_runes_total t tw ta Hok (mkpos 1 1) (done ++ firstn j seg)) as [p Hp]. rewrite Hp.
     exists p, (with_cache s (b ++ (N.of_nat (length (encs (firstn j0 seg)) + length (encs mid)), p) :: a)).
@@ -486,15 +588,21 @@ Proof.
 Qed.
 
 Lemma drain_ok t tw ta done seg flag s : table_ok t -> Inv t tw ta done seg flag s ->
-  scalars seg -> no_crlf (done ++ seg) = true ->
+  scalars seg ->
   exists s', drain t s = Some s' /\ Inv t tw ta (done ++ seg) [] flag s'.
 Proof.
-  intros Hok HI Hs Hn. pose proof HI as (Hm & _).
-  destruct (query_ok t tw ta done seg flag s (length seg) Hok HI Hs Hn (le_n _)) as (p & s' & Hq & Hsp & HI').
-  unfold drain. rewrite Hm, <- boff_all, Hq. eexists. split; [reflexivity|].
-  destruct HI' as (_ & Htw & Hta & Hfl & _ & _). rewrite firstn_all in Hsp.
-  repeat split; cbn [ps_match ps_tabw ps_taba ps_reset ps_origin ps_cache set_match with_origin]; try assumption.
-  constructor.
+  intros Hok HI Hs. pose proof HI as (Hm & _).
+  destruct (query_ok t tw ta done seg flag s (length seg) Hok HI Hs (le_n _)) as (p & s' & Hq & Hsp & HI').
+  unfold drain, rebase_origin. rewrite Hm, <- boff_all, Hq. eexists. split; [reflexivity|].
+  destruct HI' as (Hm' & Htw & Hta & Hfl & _ & Hcr & _). rewrite firstn_all in Hsp.
+  repeat split; cbn [ps_match ps_tabw ps_taba ps_reset ps_origin ps_ofcr ps_cache set_match with_origin]; try assumption.
+  - rewrite Hm'. destruct seg as [|r seg'].
+    + cbn [encs flat_map]. rewrite app_nil_r. exact Hcr.
+    + assert (Hne : r :: seg' <> []) by discriminate.
+      rewrite <- (encs_last_cr done (r :: seg') Hs Hne).
+      inversion Hs as [|? ? Hr _]; subst. rewrite encs_cons.
+      destruct (enc r ++ encs seg') eqn:E; [exfalso; exact (enc_app_nonnil r _ Hr E)|reflexivity].
+  - constructor.
 Qed.
 
 Lemma spec_pos_boundary t tw ta o done seg j : scalars done -> scalars seg -> (j <= length seg)%nat ->
@@ -514,61 +622,55 @@ Qed.
 
 Lemma run_ok t tw ta : table_ok t ->
   forall h done seg flag s, Inv t tw ta done seg flag s -> scalars done -> scalars seg ->
-    hvalid seg flag h -> no_crlf (done ++ seg ++ htext h) = true ->
+    hvalid seg flag h ->
     exists s' ans, run t s (lower seg flag h) = Some (s', ans) /\ map Some ans = expected t tw ta done seg flag h.
 Proof.
-  intros Hok. induction h as [|o h IH]; intros done seg flag s HI Hd Hs Hv Hn.
+  intros Hok. induction h as [|o h IH]; intros done seg flag s HI Hd Hs Hv.
   - exists s, []. split; reflexivity.
-  - destruct o as [rs|j| | |b]; cbn [lower expected hvalid htext run step] in *.
+  - destruct o as [rs|j| | |b]; cbn [lower expected hvalid run step] in *.
     + (* text *)
-      destruct Hv as [Hrs Hv]. destruct HI as (Hm & Htw & Hta & Hfl & Ho & _).
+      destruct Hv as [Hrs Hv]. destruct HI as (Hm & Htw & Hta & Hfl & Ho & Hcr & _).
       assert (HI' : Inv t tw ta done (seg ++ rs) flag (set_match s (ps_match s ++ encs rs))).
-      { repeat split; cbn [ps_match ps_tabw ps_taba ps_reset ps_origin ps_cache set_match]; try assumption.
+      { repeat split; cbn [ps_match ps_tabw ps_taba ps_reset ps_origin ps_ofcr ps_cache set_match]; try assumption.
         - rewrite Hm, encs_app. reflexivity.
         - constructor. }
-      assert (Hn' : no_crlf (done ++ (seg ++ rs) ++ htext h) = true) by (rewrite <- app_assoc; exact Hn).
-      destruct (IH done (seg ++ rs) flag _ HI' Hd (proj2 (scalars_app seg rs) (conj Hs Hrs)) Hv Hn') as (s' & ans & Hr & He).
+      destruct (IH done (seg ++ rs) flag _ HI' Hd (proj2 (scalars_app seg rs) (conj Hs Hrs)) Hv) as (s' & ans & Hr & He).
       rewrite Hr. exists s', ans. split; [reflexivity|exact He].
     + (* query *)
       destruct Hv as [Hj Hv].
-      assert (Hn0 : no_crlf (done ++ seg) = true) by (rewrite app_assoc in Hn; apply no_crlf_app in Hn; apply Hn).
-      destruct (query_ok t tw ta done seg flag s j Hok HI Hs Hn0 Hj) as (p & s1 & Hq & Hsp & HI1).
-      rewrite Hq. destruct (IH done seg flag s1 HI1 Hd Hs Hv Hn) as (s' & ans & Hr & He).
+      destruct (query_ok t tw ta done seg flag s j Hok HI Hs Hj) as (p & s1 & Hq & Hsp & HI1).
+      rewrite Hq. destruct (IH done seg flag s1 HI1 Hd Hs Hv) as (s' & ans & Hr & He).
       rewrite Hr. exists s', ([p] ++ ans). split; [reflexivity|].
       cbn [app map]. rewrite He, (spec_pos_boundary t tw ta _ done seg j Hd Hs Hj), Hsp. reflexivity.
     + (* drain *)
-      assert (Hn0 : no_crlf (done ++ seg) = true) by (rewrite app_assoc in Hn; apply no_crlf_app in Hn; apply Hn).
-      destruct (drain_ok t tw ta done seg flag s Hok HI Hs Hn0) as (s1 & Hdr & HI1). rewrite Hdr.
-      assert (Hn' : no_crlf ((done ++ seg) ++ [] ++ htext h) = true) by (cbn [app]; rewrite <- app_assoc; exact Hn).
-      destruct (IH (done ++ seg) [] flag s1 HI1 (proj2 (scalars_app done seg) (conj Hd Hs)) (Forall_nil _) Hv Hn') as (s' & ans & Hr & He).
+      destruct (drain_ok t tw ta done seg flag s Hok HI Hs) as (s1 & Hdr & HI1). rewrite Hdr.
+      destruct (IH (done ++ seg) [] flag s1 HI1 (proj2 (scalars_app done seg) (conj Hd Hs)) (Forall_nil _) Hv) as (s' & ans & Hr & He).
       rewrite Hr. exists s', ans. split; [reflexivity|exact He].
     + (* reset *)
       pose proof HI as (_ & _ & _ & Hfl & _). unfold reset. rewrite Hfl. destruct flag.
-      * assert (Hn0 : no_crlf (done ++ seg) = true) by (rewrite app_assoc in Hn; apply no_crlf_app in Hn; apply Hn).
-        destruct (drain_ok t tw ta done seg true s Hok HI Hs Hn0) as (s1 & Hdr & HI1). rewrite Hdr.
-        assert (Hn' : no_crlf ((done ++ seg) ++ [] ++ htext h) = true) by (cbn [app]; rewrite <- app_assoc; exact Hn).
-        destruct (IH (done ++ seg) [] true s1 HI1 (proj2 (scalars_app done seg) (conj Hd Hs)) (Forall_nil _) Hv Hn') as (s' & ans & Hr & He).
+      * destruct (drain_ok t tw ta done seg true s Hok HI Hs) as (s1 & Hdr & HI1). rewrite Hdr.
+        destruct (IH (done ++ seg) [] true s1 HI1 (proj2 (scalars_app done seg) (conj Hd Hs)) (Forall_nil _) Hv) as (s' & ans & Hr & He).
         rewrite Hr. exists s', ans. split; [reflexivity|exact He].
-      * destruct (IH done seg false s HI Hd Hs Hv Hn) as (s' & ans & Hr & He).
+      * destruct (IH done seg false s HI Hd Hs Hv) as (s' & ans & Hr & He).
         rewrite Hr. exists s', ans. split; [reflexivity|exact He].
     + (* flag *)
-      destruct HI as (Hm & Htw & Hta & Hfl & Ho & Hc).
+      destruct HI as (Hm & Htw & Hta & Hfl & Ho & Hcr & Hc).
       assert (HI' : Inv t tw ta done seg b (set_reset_flag s b)) by (repeat split; assumption).
-      destruct (IH done seg b _ HI' Hd Hs Hv Hn) as (s' & ans & Hr & He).
+      destruct (IH done seg b _ HI' Hd Hs Hv) as (s' & ans & Hr & He).
       rewrite Hr. exists s', ans. split; [reflexivity|exact He].
 Qed.
 
 Lemma Inv_init t tw ta : Inv t tw ta [] [] true (init_state tw ta).
 Proof.
-  repeat split; cbn [init_state ps_match ps_tabw ps_taba ps_reset ps_origin ps_cache];
+  repeat split; cbn [init_state ps_match ps_tabw ps_taba ps_reset ps_origin ps_ofcr ps_cache];
     try apply spec_runes_nil; try reflexivity.
   constructor.
 Qed.
 
-Lemma C11_history_independent_partial_proof : stmt_C11_history_independent_partial.
+Lemma C11_history_independent_proof : stmt_C11_history_independent.
 Proof.
-  intros t Ht tw ta h _ Hv Hn. pose proof (table_ok_shipped t Ht) as Hok. clear Ht.
-  exact (run_ok t tw ta Hok h [] [] true (init_state tw ta) (Inv_init t tw ta) (Forall_nil _) (Forall_nil _) Hv Hn).
+  intros t Ht tw ta h _ Hv. pose proof (table_ok_shipped t Ht) as Hok. clear Ht.
+  exact (run_ok t tw ta Hok h [] [] true (init_state tw ta) (Inv_init t tw ta) (Forall_nil _) (Forall_nil _) Hv).
 Qed.
 
 (* ------------------------------------------------------------------------------------------------ *)
@@ -604,7 +706,7 @@ Qed.
 
 Lemma drain_sorted t s s' : drain t s = Some s' -> cache_sorted s'.
 Proof.
-  unfold drain. destruct (position_at t s (N.of_nat (length (ps_match s)))) as [[p s1]|]; [|discriminate].
+  unfold drain, rebase_origin. destruct (position_at t s (N.of_nat (length (ps_match s)))) as [[p s1]|]; [|discriminate].
   intros H. inversion H; subst. exact I.
 Qed.
 
@@ -639,9 +741,73 @@ Proof.
 Qed.
 
 (* ------------------------------------------------------------------------------------------------ *)
-(* 6. The defects, by evaluation on the shipped tables                                               *)
+(* 6. Special cases and the example                                                                  *)
 (* ------------------------------------------------------------------------------------------------ *)
 
+Lemma C11_single_query_proof : stmt_C11_single_query.
+Proof.
+  intros t Ht tw ta rs j Hta Hs Hj.
+  assert (Hv : hvalid [] true [HText rs; HQuery j]) by (cbn [hvalid app]; repeat split; assumption).
+  destruct (C11_history_independent_proof t Ht tw ta _ Hta Hv) as (s & ans & Hr & He). clear Ht.
+  exists s, ans. split; [exact Hr|]. rewrite He. cbn [expected app encs flat_map length]. rewrite N.add_0_l. reflexivity.
+Qed.
+
+Definition hqueries (js : list nat) : list hop := map HQuery js.
+
+Lemma lower_queries seg js j :
+  lower seg true (hqueries js ++ [HQuery j]) = queries seg js ++ [OQuery (boff seg j)].
+Proof. unfold hqueries, queries. induction js as [|k js IH]; [reflexivity|]. cbn [map app lower]. rewrite IH. reflexivity. Qed.
+
+Lemma hvalid_queries seg js j : Forall (fun k => (k <= length seg)%nat) js -> (j <= length seg)%nat ->
+  hvalid seg true (hqueries js ++ [HQuery j]).
+Proof.
+  intros H Hj. unfold hqueries. induction H as [|k js Hk _ IH]; cbn [map app hvalid]; [split; [exact Hj|exact I]|].
+  split; [exact Hk|exact IH].
+Qed.
+
+Lemma expected_queries_last t tw ta done seg js j :
+  last (expected t tw ta done seg true (hqueries js ++ [HQuery j])) None =
+  spec_pos t tw ta (mkpos 1 1) (encs (done ++ seg)) (N.of_nat (length (encs done)) + boff seg j).
+Proof.
+  unfold hqueries. induction js as [|k js IH]; [reflexivity|]. cbn [map app expected].
+  destruct (expected t tw ta done seg true (map HQuery js ++ [HQuery j])) eqn:E; [|exact IH].
+  destruct js; discriminate E.
+Qed.
+
+Lemma last_map_some (l : list pos) d : l <> [] -> last (map Some l) None = Some (last l d).
+Proof.
+  induction l as [|x l IH]; [congruence|]. intros _. destruct l as [|y l]; [reflexivity|].
+  change (last (map Some (y :: l)) None = Some (last (y :: l) d)). apply IH. discriminate.
+Qed.
+
+Lemma last_answer t tw ta rs js j s a : decompress_table = Some t -> 1 <= ta -> scalars rs ->
+  Forall (fun k => (k <= length rs)%nat) js -> (j <= length rs)%nat ->
+  run t (init_state tw ta) (OText (encs rs) :: queries rs js ++ [OQuery (boff rs j)]) = Some (s, a) ->
+  Some (last a (mkpos 0 0)) = spec_pos t tw ta (mkpos 1 1) (encs rs) (boff rs j).
+Proof.
+  intros Ht Hta Hs Hjs Hj Hr.
+  assert (Hv : hvalid [] true (HText rs :: hqueries js ++ [HQuery j])).
+  { cbn [hvalid app]. split; [exact Hs|]. apply hvalid_queries; assumption. }
+  destruct (C11_history_independent_proof t Ht tw ta _ Hta Hv) as (s' & ans & Hr' & He). clear Ht.
+  cbn [lower app] in Hr'. rewrite lower_queries, Hr in Hr'. inversion Hr'; subst s' ans. clear Hr'.
+  change (map Some a = expected t tw ta [] rs true (hqueries js ++ [HQuery j])) in He.
+  assert (HL : last (expected t tw ta [] rs true (hqueries js ++ [HQuery j])) None =
+               spec_pos t tw ta (mkpos 1 1) (encs rs) (boff rs j))
+    by (rewrite expected_queries_last; reflexivity).
+  rewrite <- He in HL. rewrite <- HL.
+  symmetry. apply last_map_some. intros E. subst a. cbn [map] in He.
+  destruct js; discriminate He.
+Qed.
+
+Lemma C11_query_order_independent_proof : stmt_C11_query_order_independent.
+Proof.
+  intros t Ht tw ta rs js1 js2 j Hta Hs H1 H2 Hj s1 a1 s2 a2 R1 R2.
+  pose proof (last_answer t tw ta rs js1 j s1 a1 Ht Hta Hs H1 Hj R1) as E1.
+  pose proof (last_answer t tw ta rs js2 j s2 a2 Ht Hta Hs H2 Hj R2) as E2. clear Ht R1 R2.
+  rewrite <- E2 in E1. inversion E1. reflexivity.
+Qed.
+
+(* the example, by evaluation on the shipped tables *)
 Definition pos_eqb (p q : pos) : bool := (p_line p =? p_line q) && (p_col p =? p_col q).
 Lemma pos_eqb_eq p q : pos_eqb p q = true -> p = q.
 Proof.
@@ -674,59 +840,6 @@ Definition opt_is (o : option pos) (q : pos) : bool := match o with Some p => po
 Lemma opt_is_spec o q : opt_is o q = true -> o = Some q.
 Proof. unfold opt_is. destruct o as [p|]; [|discriminate]. intros H. rewrite (pos_eqb_eq _ _ H). reflexivity. Qed.
 
-(* the text "a CR LF b" *)
-Definition w_rs : list N := [97; 13; 10; 98].
-Lemma w_rs_scalars : scalars w_rs.
-Proof. repeat constructor. Qed.
-
-(* a single query of offset 4 (after the b) on a fresh environment answers (2,3); the property demands (2,2):
-   the LF of the CR LF pair is counted as a column of line 2 *)
-Definition w_single_run (t : ucd_table) : bool :=
-  answers_are (run t (init_state 8 8) [OText (encs w_rs); OQuery (boff w_rs 4)]) [mkpos 2 3].
-Definition w_single_spec (t : ucd_table) : bool :=
-  opt_is (spec_pos t 8 8 (mkpos 1 1) (encs w_rs) (boff w_rs 4)) (mkpos 2 2).
-Lemma w_single_run_ok : with_table w_single_run = true. Proof. vm_compute. reflexivity. Qed.
-Lemma w_single_spec_ok : with_table w_single_spec = true. Proof. vm_compute. reflexivity. Qed.
-
-Lemma le_1_8 : 1 <= 8. Proof. intros H. discriminate H. Qed.
-
-Lemma C11_crlf_column_refuted_proof : stmt_C11_crlf_column_refuted.
-Proof.
-  intros H. destruct C14_tables_decode_proof as [t Ht].
-  pose proof (with_table_elim _ t Ht w_single_run_ok) as W1.
-  pose proof (with_table_elim _ t Ht w_single_spec_ok) as W2.
-  assert (Hlen : (4 <= length w_rs)%nat) by (cbn; lia).
-  destruct (H t Ht 8 8 w_rs 4%nat le_1_8 w_rs_scalars Hlen) as (s & ans & Hr & He). clear Ht H.
-  destruct (answers_are_spec _ _ W1) as [s0 Hr0]. apply opt_is_spec in W2.
-  rewrite Hr0 in Hr. rewrite W2 in He. clear Hr0 W1 W2.
-  inversion Hr; subst ans. cbn [map] in He. inversion He.
-Qed.
-
-(* the same query after a query of offset 2 (between CR and LF) answers (3,2) *)
-Definition w_hist_run1 (t : ucd_table) : bool :=
-  answers_are (run t (init_state 8 8) (OText (encs w_rs) :: queries w_rs [] ++ [OQuery (boff w_rs 4)])) [mkpos 2 3].
-Definition w_hist_run2 (t : ucd_table) : bool :=
-  answers_are (run t (init_state 8 8) (OText (encs w_rs) :: queries w_rs [2%nat] ++ [OQuery (boff w_rs 4)]))
-              [mkpos 2 1; mkpos 3 2].
-Lemma w_hist_run1_ok : with_table w_hist_run1 = true. Proof. vm_compute. reflexivity. Qed.
-Lemma w_hist_run2_ok : with_table w_hist_run2 = true. Proof. vm_compute. reflexivity. Qed.
-
-Lemma C11_crlf_history_refuted_proof : stmt_C11_crlf_history_refuted.
-Proof.
-  intros H. destruct C14_tables_decode_proof as [t Ht].
-  pose proof (with_table_elim _ t Ht w_hist_run1_ok) as W1.
-  pose proof (with_table_elim _ t Ht w_hist_run2_ok) as W2.
-  destruct (answers_are_spec _ _ W1) as [s1 R1]. destruct (answers_are_spec _ _ W2) as [s2 R2].
-  assert (Hlen : (4 <= length w_rs)%nat) by (cbn; lia).
-  assert (Hjs2 : Forall (fun k => (k <= length w_rs)%nat) [2%nat]) by (repeat constructor; cbn; lia).
-  pose proof (H t Ht 8 8 w_rs [] [2%nat] 4%nat le_1_8 w_rs_scalars (Forall_nil _) Hjs2 Hlen s1 _ s2 _ R1 R2) as E.
-  clear - E. cbn [last] in E. inversion E.
-Qed.
-
-(* hence the full property fails *)
-Definition w_h : list hop := [HText w_rs; HQuery 4].
-Definition w_full_run (t : ucd_table) : bool :=
-  answers_are (run t (init_state 8 8) (lower [] true w_h)) [mkpos 2 3].
 Fixpoint opts_are (a : list (option pos)) (b : list pos) : bool :=
   match a, b with
   | [], [] => true
@@ -739,19 +852,20 @@ Proof.
   cbn [opts_are] in H. apply andb_true_iff in H. destruct H as [H1 H2].
   cbn [map]. rewrite (opt_is_spec _ _ H1), (IH b H2). reflexivity.
 Qed.
-Definition w_full_spec (t : ucd_table) : bool := opts_are (expected t 8 8 [] [] true w_h) [mkpos 2 2].
-Lemma w_full_run_ok : with_table w_full_run = true. Proof. vm_compute. reflexivity. Qed.
-Lemma w_full_spec_ok : with_table w_full_spec = true. Proof. vm_compute. reflexivity. Qed.
 
-Lemma C11_full_refuted_proof : stmt_C11_full_refuted.
+Definition example_answers : list pos := [mkpos 2 1; mkpos 3 1; mkpos 3 1; mkpos 3 2; mkpos 2 1].
+Definition ex_spec (t : ucd_table) : bool := opts_are (expected t 8 8 [] [] true example_history) example_answers.
+Definition ex_run (t : ucd_table) : bool :=
+  answers_are (run t (init_state 8 8) (lower [] true example_history)) example_answers.
+Lemma ex_spec_ok : with_table ex_spec = true. Proof. vm_compute. reflexivity. Qed.
+Lemma ex_run_ok : with_table ex_run = true. Proof. vm_compute. reflexivity. Qed.
+
+Lemma C11_example_proof : stmt_C11_example.
 Proof.
-  intros H. destruct C14_tables_decode_proof as [t Ht].
-  pose proof (with_table_elim _ t Ht w_full_run_ok) as W1.
-  pose proof (with_table_elim _ t Ht w_full_spec_ok) as W2.
-  assert (Hv : hvalid [] true w_h).
-  { cbn [hvalid w_h]. split; [exact w_rs_scalars|]. split; [cbn; lia|exact I]. }
-  destruct (H t Ht 8 8 w_h le_1_8 Hv) as (s & ans & Hr & He). clear Ht H.
-  destruct (answers_are_spec _ _ W1) as [s0 Hr0]. apply opts_are_spec in W2.
-  rewrite Hr0 in Hr. rewrite W2 in He. clear Hr0 W1 W2.
-  inversion Hr; subst ans. cbn [map] in He. inversion He.
+  split.
+  - unfold example_history. cbn [hvalid app length]. repeat split; try lia; repeat constructor.
+  - intros t Ht.
+    pose proof (with_table_elim _ t Ht ex_spec_ok) as W1.
+    pose proof (with_table_elim _ t Ht ex_run_ok) as W2. clear Ht.
+    split; [exact (opts_are_spec _ _ W1)|exact (answers_are_spec _ _ W2)].
 Qed.
